@@ -1,7 +1,7 @@
 (* C07 — power operator. Statements only; proofs in Proof/P_IntPow.v. *)
 From Coq Require Import ZArith List Bool.
 Import ListNotations.
-From CyVerif Require Import Lib.CInt Model.M_IntPow Model.M_PowDoc Proof.P_IntPow Proof.P_IntPowCk Gen.Gen_Pow.
+From CyVerif Require Import Lib.CInt Model.M_IntPow Model.M_PowDoc Proof.P_IntPow Proof.P_IntPowCk Proof.P_PowDoc Gen.Gen_Pow.
 Open Scope Z_scope.
 
 (* __Pyx_pow_<T>(b, e) for every width, signedness, base and non-negative exponent:
@@ -68,7 +68,85 @@ Theorem C07_pow_table_rows : forall row, In row pow_rows -> row_ok row = true.
 Proof. apply forallb_forall. exact C07_pow_table_matches_doc. Qed.
 Print Assumptions C07_pow_table_rows.
 
+
+(* ---- destination rule (PowNode.compute_c_result_type + PowNode.coerce_to) --------------------
+   every domain below is a finite product of enumerations (3 cpow states x 7 operand classes x
+   10 exponent kinds x 9 destinations); the statements are universally quantified over it *)
+
+(* the deterministic type function lies inside the documented cpow table *)
+Theorem C07_pow_type_in_doc : forall cpow a b, doc_allows cpow a b (pow_type cpow (OC a) (EC b)) = true.
+Proof. exact pow_type_in_doc. Qed.
+Print Assumptions C07_pow_type_in_doc.
+
+(* the model of the code (fallback test written as the code does) = the rule read from the
+   documentation side, for every setting, operand class, exponent kind and destination *)
+Theorem C07_coerced_eq_doc : forall c a b d, pow_coerced c a b d = doc_coerced c a b d.
+Proof. exact pow_coerced_eq_doc. Qed.
+Print Assumptions C07_coerced_eq_doc.
+
+(* an explicit cpow=True / cpow=False is final: the destination never changes the type of the
+   power and no fallback warning is issued *)
+Theorem C07_explicit_dest_independent : forall c a b d,
+  c <> CUnset ->
+  o_type (pow_coerced c a b d) = pow_type (eff_cpow c) a b /\ o_warned (pow_coerced c a b d) = false.
+Proof. exact explicit_dest_independent. Qed.
+Print Assumptions C07_explicit_dest_independent.
+
+(* unset = cpow False, except the warned fallback: direct C int / C float destination, C real
+   operands, and then exactly the cpow=True column *)
+Theorem C07_unset_is_false_or_fallback : forall a b d,
+  (o_warned (pow_coerced CUnset a b d) = false /\ pow_coerced CUnset a b d = pow_coerced CFalse a b d) \/
+  (o_warned (pow_coerced CUnset a b d) = true /\ is_direct_c_real d = true /\
+   o_is_c_real a = true /\ e_is_c_real b = true /\
+   o_type (pow_coerced CUnset a b d) = pow_type true a b /\ pow_type true a b <> pow_type false a b).
+Proof. exact unset_is_false_or_fallback. Qed.
+Print Assumptions C07_unset_is_false_or_fallback.
+
+(* explicit cpow=False: C semantics reach a destination only where they coincide with Python's
+   (C pow() for provably real results, the integer helper for exponents known >= 0) *)
+Theorem C07_explicit_false_c_semantics_safe : forall a b d real,
+  match deliver (o_type (pow_coerced CFalse a b d)) d real with
+  | VFloat => provably_real a b = true
+  | VInt => exponent_nonneg b = true
+  | _ => True
+  end.
+Proof. exact explicit_false_c_semantics_safe. Qed.
+Print Assumptions C07_explicit_false_c_semantics_safe.
+
+(* explicit cpow=False, soft complex: a non-real value raises TypeError on its way to a C double,
+   is rejected at compile time for a C integer, and stays complex for Python destinations *)
+Theorem C07_explicit_false_nonreal_raises : forall a b,
+  pow_type false a b = RSoftComplex ->
+  deliver (o_type (pow_coerced CFalse a b DCFloat)) DCFloat false = VTypeError /\
+  o_rejected (pow_coerced CFalse a b DCInt) = true /\
+  deliver (o_type (pow_coerced CFalse a b DPyObj)) DPyObj false = VPyComplex /\
+  deliver (o_type (pow_coerced CFalse a b DNone)) DNone false = VPyComplex.
+Proof. exact explicit_false_nonreal_raises. Qed.
+Print Assumptions C07_explicit_false_nonreal_raises.
+
+Theorem C07_explicit_true_no_softcomplex : forall a b d real,
+  o_type (pow_coerced CTrue a b d) <> RSoftComplex /\
+  (deliver (o_type (pow_coerced CTrue a b d)) d real = VTypeError -> o_type (pow_coerced CTrue a b d) = RObj).
+Proof. exact explicit_true_no_softcomplex. Qed.
+Print Assumptions C07_explicit_true_no_softcomplex.
+
+(* the analysed tree of the running compiler (Gen_Pow.pow_crows, dumped on every run: type of the
+   power node, compile error, fallback warning for every generated function) equals the documented
+   function on all entries -- finite, by computation; fails to compile when a row deviates *)
+Theorem C07_coerced_table_matches_doc : forallb crow_ok pow_crows = true.
+Proof. vm_compute. reflexivity. Qed.
+Print Assumptions C07_coerced_table_matches_doc.
+
+Theorem C07_coerced_table_rows : forall row, In row pow_crows -> crow_ok row = true /\ crow_model_ok row = true.
+Proof.
+  intros row H. assert (K : crow_ok row = true) by (revert row H; apply forallb_forall; exact C07_coerced_table_matches_doc).
+  split; [exact K | rewrite <- crow_ok_model; exact K].
+Qed.
+Print Assumptions C07_coerced_table_rows.
+
 Example C07_nonvacuous :
   int_pow 32 true 3 5 = Some 243 /\ int_pow 32 true (-2) 31 = Some (-2147483648) /\
-  int_pow 8 false 3 7 = Some 139 /\ in_range 32 true (3 ^ 5) /\ pow_rows <> [].
+  int_pow 8 false 3 7 = Some 139 /\ in_range 32 true (3 ^ 5) /\ pow_rows <> [] /\ pow_crows <> [] /\
+  pow_coerced CUnset (OC AFloat) (EC BRuntimeFloat) DCFloat = mk_outcome RFloat false true /\
+  pow_coerced CFalse (OC AFloat) (EC BRuntimeFloat) DCFloat = mk_outcome RSoftComplex false false.
 Proof. unfold in_range. vm_compute. intuition congruence. Qed.
